@@ -70,6 +70,12 @@ func Project(n ast.Node) *Tree {
 		return N("Ident", x.Name)
 	case *ast.BasicLit:
 		t := N("BasicLit", x.Value)
+		switch x.Kind {
+		case token.CSTRING:
+			t.A = "c" + x.Value
+		case token.PYSTRING:
+			t.A = "py" + x.Value
+		}
 		if x.Extra != nil {
 			for _, p := range x.Extra.Parts {
 				if e, ok := p.(ast.Expr); ok {
